@@ -19,16 +19,29 @@ import c11 as base  # noqa: E402
 
 MANIFEST = {
     "text": "Theorems on the Gallina model of CompositeDataSource / DataSource navigation / Environment: lookup = newest "
-            "over the union of the members' answers for every member order (Permutation), all_versions and query = "
-            "each distinct (id, version) of the union once, attached filters reach every member (also through nested "
-            "composites), relationships / related_to / creator_of of a source = scan of its population; the composite's "
-            "related_to is per member (refuted against the union scan by a witness) with the federated variant proved.",
-    "design_ref": "DESIGN.md 6/C18",
-    "note": "Trusted: Coq kernel + vm_compute; the hand-written model is tied to stix2/datastore/__init__.py, "
-            "stix2/utils.py:deduplicate and stix2/environment.py by the correspondence run (same partitions and reads "
-            "through the real classes and through the model, every run); member stores are those of property C11; "
-            "per-object filter evaluation is abstract (property C12). No axioms.",
-    "technique": "Coq proof over a hand-written executable model + per-run correspondence with the implementation",
+            "over the members' answers for every member order (Permutation), and over the union of the histories for "
+            "memory-store members; all_versions and query = each distinct (id, version) of the union once "
+            "(deduplicate_spec); attached filters bound everything a composite returns, for any members incl. nested "
+            "composites; relationships = exact scan, related_to = permutation of the scan's neighbours passing the extra "
+            "filters, creator_of = lookup; composite related_to: per-member variant refuted against the union by a "
+            "witness, federated variant (the code since 7d18324) proved = scan of the union. The same theorems for the "
+            "instance denoted by the source text (Props/C18Src.v via translators/tr_stores.py, fail closed) with "
+            "refutations of every recognised alternative. ObjectFactory.create: defaults / explicit arguments / list "
+            "append laws on Model/Factory.v.",
+    "design_ref": "DESIGN.md 6/C18; design_notes/C11-C18.md",
+    "note": "Trusted: Coq kernel + vm_compute (coqchk in the thorough tier); the hand-written models coq/Model/Store.v and "
+            "Model/Factory.v, tied to stix2/datastore/__init__.py, utils.deduplicate, environment.py by (a) the per-run "
+            "correspondence (partitions of a population over members of all kinds, nested composites, Environment; then "
+            "sequences of add_filter/remove_filter, later additions and reads of members on the same objects), (b) the "
+            "source-text translator, (c) behaviour probes that must agree with the text. Correspondence-only: whether "
+            "filters attached to a composite bind navigation through it (the code ignores them; the property does not "
+            "say); the iteration order of the Python set in related_to (results compared as multisets); the ObjectFactory "
+            "documented-behaviour oracle runs only to find an input when its correspondence breaks. Assumed: member "
+            "stores as in C11; per-object filter evaluation abstract in Props/C18.v (concrete in the OPTIONAL bridge "
+            "Props/C18BridgeC12.v importing property C12's files; reported as a note, not claimed, if it does not build); "
+            "copies of one (id, version) in several members are the same object (federated related_to theorem). TAXII "
+            "sources are not covered. No axioms.",
+    "technique": "Coq proof over a hand-written executable model + source-text translator + per-run correspondence with the implementation",
 }
 
 FINDING_REL = "C18-composite-related-to-per-member"
@@ -942,6 +955,7 @@ def check(run):
         if not quick and res["ok"]:
             base.run_coqchk(run, "V.Props.C18")
         facts = base.source_step(run, "Props/C18Src.v")
+        base.optional_bridge(run, "Props/C18BridgeC12.v", "property C12: Model/Filters.v, Proofs/FiltersBasics.v, FiltersOpt.v")
     probe = common.run_impl("c11_impl", [{"kind": "probe"}], procs=1)[0]
     base.NAIVE_KEPT[0] = bool(probe.get("naive_kept", True))
     cases = [witness_case(), base.witness_case("mem")]
